@@ -243,6 +243,15 @@ def parseVp (s : String) : Option Vp :=
     | _, _, _, _, _ => none
   | _ => none
 
+def parseHatchPolicy (s : String) : Option HatchPolicy :=
+  match s with
+  | "NORMAL" => some .normal | "IGNORE" => some .ignore | "SHOW_OUTLINE" => some .showOutline
+  | "SHOW_SOLID" => some .showSolid | "SHOW_APPROXIMATE_PATTERN" => some .approx | _ => none
+
+def parseFillType (s : String) : Option FillType :=
+  match s with
+  | "0" => some .solid | "1" => some .pattern | "2" => some .gradient | _ => none
+
 def parsePolicy (s : String) : Option ColorPolicy :=
   match s with
   | "COLOR" => some .color | "COLOR_SWAP_BW" => some .swapBW | "COLOR_NEGATIVE" => some .negative
@@ -336,6 +345,26 @@ def step (line : String) : String :=
         if st = State.init then showPrims (backendStage pol cu gray ps) else "ok-unbalanced"
       | .error e => showErr e
     | _, _, _, _, _, _, _, _, _ => "bad-op parse"
+  | "failing" :: layout :: exp :: layers :: blocks :: ents :: _ =>
+    match parseReq layout exp layers blocks ents "" with
+    | some r =>
+      match unfold r.doc (r.doc.blocks.length + 1) r.ents with
+      | some f =>
+        let names := ((f.failing Aff.id).map (fun p => layerKey p.1.name ++ ":" ++
+          (match p.2 with | .fallback => "fallback" | .irrational => "irrational" | .degenerate => "degenerate" | _ => "other")))
+        ";".intercalate (names.eraseDups.mergeSort (fun a b => a ≤ b))
+      | none => "no-tree"
+    | none => "bad-op parse"
+  | ["hatch", hasF, pol, ft, dense, loops] =>
+    match parseBool hasF, parseHatchPolicy pol, parseFillType ft, parseBool dense, loops.toNat? with
+    | some h, some p, some f, some d, some n =>
+      match hatchDecision h p f d n with
+      | .nothing => "nothing" | .patternLines => "lines" | .outline k => s!"outline {k}" | .filled k => s!"filled {k}"
+    | _, _, _, _, _ => "bad-op parse"
+  | ["stroke", cfgMin, scaling, lw] =>
+    match (if cfgMin = "-" then some none else (parseRat cfgMin).map some), parseRat scaling, parseRat lw with
+    | some m, some sc, some lw => showRat (backendStrokeWidth m sc lw)
+    | _, _, _ => "bad-op parse"
   | ["vports", status] =>
     match (splitList status " ").mapM parseInt with
     | some vs => " ".intercalate ((viewportsDrawn vs).map toString)
